@@ -397,6 +397,26 @@ pub fn chain_bytes(chain: &[BlockDesc]) -> u64 {
     n
 }
 
+/// same for output: a 1-byte writer capacity (or 1-byte short writes) over megabytes of CSV
+pub fn fit_writes(plan: &mut Plan, out_bytes: u64, max_events: u64) {
+    let need = (out_bytes / max_events.max(1)) as usize + 1;
+    if let Some(c) = plan.writer_cap {
+        if c < need {
+            plan.writer_cap = Some(need + c % 5);
+        }
+    }
+    if !plan.wshort.is_empty() {
+        let avg = plan.wshort.iter().sum::<usize>() / plan.wshort.len();
+        if avg < need {
+            for c in plan.wshort.iter_mut() {
+                if *c < need {
+                    *c = need + (*c % 7);
+                }
+            }
+        }
+    }
+}
+
 /// keep the number of read events of a run bounded (a 1-byte read chunk over megabytes of blocks
 /// would produce millions of trace events): raise the smallest chunks until bytes/chunk <= max_events
 pub fn fit_chunks(plan: &mut Plan, total_bytes: u64, max_events: u64) {
